@@ -1,7 +1,169 @@
-"""Suite c07 (placeholder while the runtime part is established)."""
+"""Suite c07: the EMITTED scope publisher and subscriber over an in-memory broker (runner/pubsub.go).
+
+One case = one subscription of one operation of a random scope (prefix literals and variables) followed by
+3..8 actions: valid publishes (same variable values / other values — the topic decides, also when two different
+value lists render to the same topic), publishes of another operation of the scope, raw malformed messages and
+wrong-operation envelopes injected on the topic, Unsubscribe followed by more publishes; binary / compact / JSON.
+ORACLE (written here from the property, independent of the Lean model): the handler is invoked exactly for the
+valid publishes whose topic equals the subscription's, before Unsubscribe, in order, with an equal payload
+(canonical dump) and request headers = {_cid, _timeout} + user headers + _topic_<var> = value."""
 from genlib import *
 
+TIMEOUT_DEFAULT = "5000"
+
+
+def hx(b): return b.hex() if b else "-"
+
+
+def be32(n): return struct.pack(">I", n)
+
+
+def marshal_headers(h):
+    body = b"".join(be32(len(k)) + k + be32(len(v)) + v for k, v in h.items())
+    return b"\x00" + be32(len(body)) + body
+
+
+def frame(b): return be32(len(b)) + b
+
+
+def gen_raw(r):
+    c = r.intn(7)
+    if c < 2: return bytes(r.intn(256) for _ in range(r.intn(4)))                 # shorter than the frame size
+    if c == 2: return bytes(r.intn(256) for _ in range(4 + r.intn(24)))
+    if c == 3: return frame(marshal_headers({b"_cid": b"c", b"k": b"v"}))        # no _opid
+    if c == 4: return frame(marshal_headers({b"_opid": b"7", b"_cid": b"c"}))    # headers only, no envelope
+    if c == 5: return frame(b"\x01" + marshal_headers({b"_opid": b"7"})[1:])     # unsupported version
+    return frame(marshal_headers({b"_opid": b"9"}) + bytes(r.intn(256) for _ in range(1 + r.intn(12))))
+
+
+VAR_VALUES = [b"a", b"b", b"a.b", b"", b"x1", "é".encode(), b"b.a"]
+HDR_NAMES = ["h1", "X-Trace", "k", "user"]
+
+
+def render_topic(prefix, vals, scope, op):
+    out, i = b"", 0
+    for k, x in prefix:
+        if k == "var":
+            out += vals[i] + b"."; i += 1
+        else:
+            out += x.encode() + b"."
+    return out + scope.encode() + b"." + op.encode()
+
+
 def suite_c07(r, n):
+    nprogs = max(1, min(8, n // 15))
+    progs = []
+    tries = 0
+    while len(progs) < nprogs and tries < 200:
+        tries += 1
+        p = gen_prog(r, len(progs), scopes=True)
+        if p.scopes: progs.append(p)
+    jobs, meta = [], []
+    per = max(1, n // max(1, len(progs)))
+    for p in progs:
+        defs = p.defs_code()
+        keys = list(p.scopes)
+        Stat("programs"); Stat("scopes", len(keys))
+        for _ in range(per):
+            skey = r.pick(keys)
+            sc = p.scopes[skey]
+            prefix, ops = sc["prefix"], sc["ops"]
+            names = [x for (k, x) in prefix if k == "var"]
+            (op, oty) = r.pick(ops)
+            others = [(o, t) for (o, t) in ops if o != op]
+            (oop, ooty) = r.pick(others) if others else (None, None)
+            okey, ookey = (oty.file, oty.name), ((ooty.file, ooty.name) if ooty else None)
+            proto = r.pick(["binary", "compact", "json"])
+            def vals(): return [r.pick(VAR_VALUES) for _ in names]
+            def varg(vs): return "+".join(hx(v) for v in vs) if vs else "."
+            sub_vals = vals()
+            sub_topic = render_topic(prefix, sub_vals, skey[1], op)
+            acts = ["S!" + varg(sub_vals)]
+            expect_acts = ["sub:" + sub_topic.hex()]
+            expect_calls = []
+            subscribed, seq = True, 0
+            def ctx_fields():
+                nonlocal seq
+                seq += 1
+                cid = ("cid%d" % seq).encode()
+                hdrs = {}
+                for _ in range(r.intn(3)):
+                    hdrs[r.pick(HDR_NAMES).encode()] = gen_bytes(r, True)
+                if names and r.chance(10): hdrs[b"_topic_" + r.pick(names).encode()] = b"spoof"
+                ps = ";".join("%s:%s" % (k.hex(), hdrs[k].hex()) for k in sorted(hdrs)) if hdrs else "-"
+                return cid, hdrs, ps
+            for _ in range(3 + r.intn(6)):
+                c = r.intn(100)
+                if c < 40 or (c < 55 and not names):        # valid publish, the subscription's variable values
+                    vs = sub_vals if (r.chance(75) or not names) else vals()
+                    v = gen_struct(r, p, okey)
+                    cid, hdrs, ps = ctx_fields()
+                    acts.append("P!%s!%s!%s!%s" % (varg(vs), cid.hex(), ps, dump_val(v)))
+                    on = subscribed and render_topic(prefix, vs, skey[1], op) == sub_topic
+                    expect_acts.append("cb:ok" if on else "nosub")
+                    if on:
+                        h = {b"_cid": cid, b"_timeout": TIMEOUT_DEFAULT.encode()}
+                        h.update(hdrs)
+                        for nm, val in zip(names, vs): h[b"_topic_" + nm.encode()] = val
+                        expect_calls.append(canon_dump(p, oty, v) + "@" + ";".join("%s:%s" % (k.hex(), h[k].hex()) for k in sorted(h)))
+                    Stat("act:P:" + ("delivered" if on else ("after-unsub" if not subscribed else "other-topic")))
+                elif c < 55:                                  # other variable values
+                    vs = vals()
+                    v = gen_struct(r, p, okey)
+                    cid, hdrs, ps = ctx_fields()
+                    acts.append("P!%s!%s!%s!%s" % (varg(vs), cid.hex(), ps, dump_val(v)))
+                    on = subscribed and render_topic(prefix, vs, skey[1], op) == sub_topic
+                    expect_acts.append("cb:ok" if on else "nosub")
+                    if on:
+                        h = {b"_cid": cid, b"_timeout": TIMEOUT_DEFAULT.encode()}
+                        h.update(hdrs)
+                        for nm, val in zip(names, vs): h[b"_topic_" + nm.encode()] = val
+                        expect_calls.append(canon_dump(p, oty, v) + "@" + ";".join("%s:%s" % (k.hex(), h[k].hex()) for k in sorted(h)))
+                    Stat("act:P:" + ("same-topic-other-values" if (on and vs != sub_vals) else ("delivered" if on else "other-topic")))
+                elif c < 67 and oop:                          # another operation of the scope
+                    v = gen_struct(r, p, ookey)
+                    cid, hdrs, ps = ctx_fields()
+                    acts.append("Q!%s!%s!%s!%s" % (varg(sub_vals), cid.hex(), ps, dump_val(v)))
+                    expect_acts.append("nosub")
+                    Stat("act:Q")
+                elif c < 80:                                  # raw malformed message on the topic
+                    raw = gen_raw(r)
+                    acts.append("M!" + (raw.hex() if raw else ""))
+                    expect_acts.append("nosub" if not subscribed else ("nocb" if len(raw) < 4 else "cb:err"))
+                    Stat("act:M:" + ("short" if len(raw) < 4 else "long"))
+                elif c < 90:                                  # wrong operation name in the envelope
+                    name = r.pick([oop or "Nope", "Nope", op.lower(), op + "x", ""])
+                    if name == op: name = "Nope"
+                    v = gen_struct(r, p, okey)
+                    cid, hdrs, ps = ctx_fields()
+                    acts.append("E!%s!%s!%s!%s" % (hx(name.encode()), cid.hex(), ps, dump_val(v)))
+                    expect_acts.append("cb:err" if subscribed else "nosub")
+                    Stat("act:E")
+                elif subscribed:
+                    acts.append("U"); expect_acts.append("unsub"); subscribed = False
+                    Stat("act:U")
+            toks = ",".join(("v:" + x.encode().hex()) if k == "var" else ("l:" + x.encode().hex()) for (k, x) in prefix) if prefix else "."
+            payload = "%s|%s|%s|%s|%s" % (proto, op, oop or "-", ("%s/%s" % ookey) if ookey else "-", "/".join(acts))
+            jobs.append(("ps7", "p%d" % p.pid, "%s/%s" % skey, "%s/%s" % okey, payload))
+            line = "g7 %s %s/%s %s %s %s %s %s %s %s" % (defs, okey[0], okey[1], ("%s/%s" % ookey) if ookey else "-", skey[1], op, oop or "-", toks, proto, "/".join(acts))
+            expect = "acts=%s calls=%s" % (",".join(expect_acts), "/".join(expect_calls) if expect_calls else "-")
+            meta.append((p, line, expect, proto, len(names)))
+    if not jobs:
+        Stat("evaluations", 0); Finish(); return
+    res, err = build_and_run(progs, jobs)
+    if res is None:
+        OracleFail("valid IDL with scopes was not compiled to Go that builds (C07 needs the generated publisher/subscriber)", {"op": "build", "detail": err[:3000]})
+        Stat("evaluations"); Finish(); return
+    if err: OracleFail("the runner crashed while executing generated pub/sub code", {"op": "run", "detail": err[:2000]})
+    for (p, line, expect, proto, nvars), real in zip(meta, res):
+        if real is None: real = "no-result"
+        Case(line, real)
+        Stat("evaluations"); Stat("protocol:" + proto); Stat("prefix-variables:%d" % nvars)
+        Sample({"line": line[-500:], "real": real[:400]})
+        if real != expect:
+            OracleFail("generated publisher/subscriber: handler invocations differ from the valid on-topic publishes (payload / headers / topic / isolation)",
+                       {"op": "g7", "line": line, "got": real[:2000], "want": expect[:2000], "idl": "\n".join(p.text(f) for f in p.files)[:4000]})
     Finish()
+
 
 SUITES = {"c07": suite_c07}
